@@ -99,3 +99,25 @@ def ls_of(shells):
 
 build = bases.build
 rshells = bases.rshells
+
+
+def rep(arr, kind):
+    """The same numbers in another in-memory representation (a caller may hand over any of these):
+    'c' C-contiguous copy, 'f' Fortran order, 'strided' a non-contiguous view of a larger array,
+    'readonly' a write-protected array, 'neg' negative strides (reversed twice)."""
+    a = np.array(arr, dtype=float)
+    if kind == "f":
+        return np.asfortranarray(a)
+    if kind == "strided":
+        big = np.zeros(tuple(2 * n for n in a.shape), dtype=float)
+        big[tuple(slice(None, None, 2) for _ in a.shape)] = a
+        return big[tuple(slice(None, None, 2) for _ in a.shape)]
+    if kind == "readonly":
+        a.flags.writeable = False
+        return a
+    if kind == "neg":
+        return a[::-1][::-1] if a.ndim == 1 else np.ascontiguousarray(a[::-1])[::-1]
+    return a
+
+
+REPS = ["c", "f", "strided", "readonly", "neg"]
